@@ -101,10 +101,23 @@ func checkLexer(s *lexm.Spec, files map[string]string) (string, lexStats) {
 		}
 	}
 	ref := lexm.NewRef(s)
+	// a mode index (the parameter of a push action) is resolved at run time through the positional
+	// list _lexerModes; the lexer starts in _lexerMode0
+	idl, err := tabdec.IdentLists(files["lexer.gen.go"])
+	if err != nil {
+		return "lexer.gen.go does not parse: " + err.Error(), st
+	}
+	modeList := idl["_lexerModes"]
+	if len(modeList) != len(s.Modes) {
+		return fmt.Sprintf("_lexerModes lists %d tables for %d modes", len(modeList), len(s.Modes)), st
+	}
+	if modeList[modeIdx[""]] != "_lexerMode0" {
+		return fmt.Sprintf("the default mode is entry %d of _lexerModes (%s) but the lexer starts in _lexerMode0", modeIdx[""], modeList[modeIdx[""]]), st
+	}
 	for mi, m := range s.Modes {
-		arr, ok := arrs[fmt.Sprintf("_lexerMode%d", modeIdx[m.Name])]
+		arr, ok := arrs[modeList[modeIdx[m.Name]]]
 		if !ok {
-			return fmt.Sprintf("no table _lexerMode%d for mode %q", modeIdx[m.Name], m.Name), st
+			return fmt.Sprintf("no table %s (entry %d of _lexerModes) for mode %q", modeList[modeIdx[m.Name]], modeIdx[m.Name], m.Name), st
 		}
 		tab, err := tabdec.DecodeLexMode(arr)
 		if err != nil {
@@ -322,8 +335,44 @@ func checkRows(rows [][]int32) string {
 	return ""
 }
 
+// resplit writes the non-negative cells of src in the given base, concatenates the digits
+// and cuts the digit string at random places.
+func resplit(rt *rapid.T, src []int32, base int) []int32 {
+	var digits []int
+	for _, v := range src {
+		if v < 0 {
+			continue
+		}
+		var ds []int
+		for x := int(v); ; x /= base {
+			ds = append([]int{x % base}, ds...)
+			if x < base {
+				break
+			}
+		}
+		digits = append(digits, ds...)
+	}
+	var out []int32
+	for i := 0; i < len(digits); {
+		n := rapid.IntRange(1, 3).Draw(rt, "cut")
+		if digits[i] == 0 {
+			n = 1 // no leading zeros: the number would print differently
+		}
+		if i+n > len(digits) {
+			n = len(digits) - i
+		}
+		v := 0
+		for _, d := range digits[i : i+n] {
+			v = v*base + d
+		}
+		out = append(out, int32(v))
+		i += n
+	}
+	return out
+}
+
 func genRows(rt *rapid.T) [][]int32 {
-	vals := []int32{0, 1, -1, 2, 63, 64, 65, -64, -65, 127, 128, 255, 256, 8191, 8192, 16383, 16384, 1 << 20, 1<<21 - 1, 1 << 21, 1 << 28, 2147483647, -2147483648, -2147483647}
+	vals := []int32{0, 1, -1, 2, 5, 10, 12, 15, 21, 100, 215, 63, 64, 65, -64, -65, 127, 128, 255, 256, 8191, 8192, 16383, 16384, 1 << 20, 1<<21 - 1, 1 << 21, 1 << 28, 2147483647, -2147483648, -2147483647}
 	n := rapid.IntRange(1, 40).Draw(rt, "nrows")
 	if rapid.IntRange(0, 30).Draw(rt, "big") == 0 {
 		n = rapid.IntRange(500, 3000).Draw(rt, "nrowsbig")
@@ -341,6 +390,12 @@ func genRows(rt *rapid.T) [][]int32 {
 			rows = append(rows, append(append([]int32(nil), src...), vals[rapid.IntRange(0, len(vals)-1).Draw(rt, "extv")]))
 		case k == 4:
 			rows = append(rows, []int32{})
+		case k == 5 && len(rows) > 0:
+			// the digits of an earlier row cut at other places: [2 15] -> [21 5], in base 10, 16 or 256
+			// (rows that only a self-delimiting key tells apart)
+			src := rows[rapid.IntRange(0, len(rows)-1).Draw(rt, "rs")]
+			base := []int{10, 16, 256}[rapid.IntRange(0, 2).Draw(rt, "rsbase")]
+			rows = append(rows, resplit(rt, src, base))
 		default:
 			l := rapid.IntRange(0, 6).Draw(rt, "len")
 			row := make([]int32, l)
